@@ -280,6 +280,28 @@ history_prop!(
     special_seen
 );
 
+history_prop!(
+    C12LongGames,
+    "C12/long-games",
+    Which {
+        invariants: true,
+        ..Which::default()
+    },
+    (
+        prop_oneof![
+            2 => gen::seed_fen(),
+            2 => gen::pawn_placement().prop_map(|r| gen::build(&r).fen()),
+            1 => gen::endgame(4).prop_map(|r| gen::build(&r).fen()),
+        ],
+        prop::collection::vec(op_strategy(20, 6, 4, 1, 0), 140..400),
+    )
+        .prop_map(|(fen, ops)| History { fen, ops })
+        .boxed(),
+    600,
+    15_000,
+    |it: &Interp| it.max_depth >= 128
+);
+
 /// Driven by the ENGINE's own move lists (no reference involved): whatever the generator
 /// emits is applied, so a malformed generated move shows up as a broken invariant.
 #[derive(Clone, Debug, serde::Serialize, serde::Deserialize)]
@@ -340,7 +362,15 @@ impl Prop for C12EngineDriven {
             if list.is_empty() {
                 break;
             }
-            let m = list[(*sel as usize * list.len()) >> 16].clone();
+            // bias: a move that captures a king, else (every other step) a special move
+            let king_capture = list.iter().position(|x| x.captures().map(|c| from_piece(c.0)) == Some(P::King));
+            let specials: Vec<usize> = (0..list.len()).filter(|i| mv_of(&list[*i]).kind != Kind::Std).collect();
+            let idx = match king_capture {
+                Some(i) => i,
+                None if !specials.is_empty() && sel & 1 == 1 => specials[(*sel as usize * specials.len()) >> 16],
+                None => (*sel as usize * list.len()) >> 16,
+            };
+            let m = list[idx].clone();
             let t = mv_of(&m);
             if t.kind != Kind::Std {
                 special = true;
